@@ -150,24 +150,60 @@ _dbus_platform_rmutex_free (DBusRMutex *mutex)
 void
 _dbus_platform_cmutex_lock (DBusCMutex *mutex)
 {
+#ifdef DBUS_VERIF
+  if (_dbus_verif_sync_hook != NULL)
+    {
+      int verif_result = 0;
+
+      if (_dbus_verif_sync_hook (DBUS_VERIF_OP_CMUTEX_LOCK, mutex, NULL, 0, 0, &verif_result))
+        return;
+    }
+#endif
   PTHREAD_CHECK ("pthread_mutex_lock", pthread_mutex_lock (&mutex->lock));
 }
 
 void
 _dbus_platform_rmutex_lock (DBusRMutex *mutex)
 {
+#ifdef DBUS_VERIF
+  if (_dbus_verif_sync_hook != NULL)
+    {
+      int verif_result = 0;
+
+      if (_dbus_verif_sync_hook (DBUS_VERIF_OP_RMUTEX_LOCK, mutex, NULL, 0, 0, &verif_result))
+        return;
+    }
+#endif
   PTHREAD_CHECK ("pthread_mutex_lock", pthread_mutex_lock (&mutex->lock));
 }
 
 void
 _dbus_platform_cmutex_unlock (DBusCMutex *mutex)
 {
+#ifdef DBUS_VERIF
+  if (_dbus_verif_sync_hook != NULL)
+    {
+      int verif_result = 0;
+
+      if (_dbus_verif_sync_hook (DBUS_VERIF_OP_CMUTEX_UNLOCK, mutex, NULL, 0, 0, &verif_result))
+        return;
+    }
+#endif
   PTHREAD_CHECK ("pthread_mutex_unlock", pthread_mutex_unlock (&mutex->lock));
 }
 
 void
 _dbus_platform_rmutex_unlock (DBusRMutex *mutex)
 {
+#ifdef DBUS_VERIF
+  if (_dbus_verif_sync_hook != NULL)
+    {
+      int verif_result = 0;
+
+      if (_dbus_verif_sync_hook (DBUS_VERIF_OP_RMUTEX_UNLOCK, mutex, NULL, 0, 0, &verif_result))
+        return;
+    }
+#endif
   PTHREAD_CHECK ("pthread_mutex_unlock", pthread_mutex_unlock (&mutex->lock));
 }
 
@@ -215,6 +251,15 @@ void
 _dbus_platform_condvar_wait (DBusCondVar *cond,
                              DBusCMutex  *mutex)
 {
+#ifdef DBUS_VERIF
+  if (_dbus_verif_sync_hook != NULL)
+    {
+      int verif_result = 0;
+
+      if (_dbus_verif_sync_hook (DBUS_VERIF_OP_CONDVAR_WAIT, cond, mutex, 0, 0, &verif_result))
+        return;
+    }
+#endif
   PTHREAD_CHECK ("pthread_cond_wait", pthread_cond_wait (&cond->cond, &mutex->lock));
 }
 
@@ -226,6 +271,14 @@ _dbus_platform_condvar_wait_timeout (DBusCondVar               *cond,
   struct timeval time_now;
   struct timespec end_time;
   int result;
+#ifdef DBUS_VERIF
+  int verif_result = 0;
+
+  if (_dbus_verif_sync_hook != NULL &&
+      _dbus_verif_sync_hook (DBUS_VERIF_OP_CONDVAR_WAIT_TIMEOUT, cond, mutex,
+                             timeout_milliseconds, 0, &verif_result))
+    return verif_result;
+#endif
 
 #ifdef HAVE_MONOTONIC_CLOCK
   if (have_monotonic_clock)
@@ -262,6 +315,15 @@ _dbus_platform_condvar_wait_timeout (DBusCondVar               *cond,
 void
 _dbus_platform_condvar_wake_one (DBusCondVar *cond)
 {
+#ifdef DBUS_VERIF
+  if (_dbus_verif_sync_hook != NULL)
+    {
+      int verif_result = 0;
+
+      if (_dbus_verif_sync_hook (DBUS_VERIF_OP_CONDVAR_WAKE_ONE, cond, NULL, 0, 0, &verif_result))
+        return;
+    }
+#endif
   PTHREAD_CHECK ("pthread_cond_signal", pthread_cond_signal (&cond->cond));
 }
 
@@ -293,12 +355,30 @@ static pthread_mutex_t init_mutex = PTHREAD_MUTEX_INITIALIZER;
 void
 _dbus_threads_lock_platform_specific (void)
 {
+#ifdef DBUS_VERIF
+  if (_dbus_verif_sync_hook != NULL)
+    {
+      int verif_result = 0;
+
+      if (_dbus_verif_sync_hook (DBUS_VERIF_OP_GLOBAL_LOCK, NULL, NULL, 0, 0, &verif_result))
+        return;
+    }
+#endif
   pthread_mutex_lock (&init_mutex);
 }
 
 void
 _dbus_threads_unlock_platform_specific (void)
 {
+#ifdef DBUS_VERIF
+  if (_dbus_verif_sync_hook != NULL)
+    {
+      int verif_result = 0;
+
+      if (_dbus_verif_sync_hook (DBUS_VERIF_OP_GLOBAL_UNLOCK, NULL, NULL, 0, 0, &verif_result))
+        return;
+    }
+#endif
   pthread_mutex_unlock (&init_mutex);
 }
 
